@@ -373,6 +373,9 @@ def gen_nodes(rng, usable, depth, in_class, allow_ph, budget, decl, slot_ok=True
         if budget[0] <= 0:
             break
         budget[0] -= 1
+        if allow_ph and rng.random() < 0.3:
+            out.append([rng.choice(["jsdep", "cssdep"])])
+            continue
         r = rng.random()
         if r < 0.12:
             out.append(["t", rng.choice(["x", " y ", "<i>z</i>", "<!-- c -->", "<br/>"])])
